@@ -27,7 +27,7 @@ type steerT struct {
 	Encrypt bool   `json:"encrypt"`
 	Dir     string `json:"dir"` // "c2s" | "s2c"
 	Buf     uint32 `json:"buf"`
-	Back    int    `json:"back"` // chunks the sender may still send before it wraps
+	Back    int    `json:"back"` // chunks (>= 1) the sender still sends before it wraps: a conforming sender has sent a number > UInt32.Max-1024 before it wraps
 	Exact   bool   `json:"exact"` // first message body is an exact multiple of the max chunk body (empty final chunk)
 	Msgs    []struct {
 		Tmpl int `json:"tmpl"`
@@ -62,12 +62,12 @@ func genSteered(t *rapid.T) steerT {
 		}
 		c.Msgs = append(c.Msgs, m)
 	}
-	c.Back = rapid.IntRange(0, 12).Draw(t, "back")
+	c.Back = rapid.IntRange(1, 12).Draw(t, "back")
 	return c
 }
 
 func checkSteered(c steerT) (msg string, classes []string, err error) {
-	if c.Buf < 8192 || c.Buf > 65535 || len(c.Msgs) == 0 || len(c.Msgs) > 8 || c.Back < 0 || (c.Dir != "c2s" && c.Dir != "s2c") {
+	if c.Buf < 8192 || c.Buf > 65535 || len(c.Msgs) == 0 || len(c.Msgs) > 8 || c.Back < 1 || (c.Dir != "c2s" && c.Dir != "s2c") {
 		return "", nil, fmt.Errorf("malformed case")
 	}
 	mode := chanpair.ModeFor(c.Policy, c.Encrypt)
@@ -203,7 +203,7 @@ func checkSteered(c steerT) (msg string, classes []string, err error) {
 }
 
 func TestSteered(t *testing.T) {
-	rec.Assume("secured policy (Basic256Sha256, Sign and SignAndEncrypt): the sender is gopcua itself (assumed conforming, see C08), steered with VerifSetSequenceNumber to cross its wrap (onto 1); split points are gopcua's (maximal chunks, incl. an empty final chunk); no interleaving / aborts / wrap onto 0 under a secured policy unless pkg/refcodec is used")
+	rec.Assume("TestSteered: the sender is gopcua itself (assumed conforming, see C08), steered with VerifSetSequenceNumber to cross its wrap (onto 1); split points are gopcua's (maximal chunks, incl. an empty final chunk)")
 	rapid.Check(t, func(t *rapid.T) {
 		c := genSteered(t)
 		var msg string
